@@ -1,8 +1,53 @@
 (** C18 — parser_method! behaves like the equivalent chain of Parser method calls;
     the bytes matched for a literal are the bytes rustc gives that literal.
     Statements only; every proof is [exact <lemma>]. *)
-From KV Require Import Base.Prelude Model.ParserMethod Spec.Search Spec.ParserMethod
-  Proofs.ParserMethodProofs.
+From KV Require Import Base.Prelude Model.Utf8 Model.Literal Model.ParserMethod
+  Spec.Search Spec.Literal Spec.ParserMethod Proofs.LiteralProofs Proofs.ParserMethodProofs.
+(* ---------------------------------------------------------------- literal bytes *)
+
+(** literal_bytes_eq_rustc: for every string-literal token that is well formed by the
+    Reference's grammar ([rustc_string src v]: [src] = the token's characters, [v] = the
+    characters it denotes), the proc macro's decoder applied to the token text yields the
+    UTF-8 bytes of exactly those characters.  No bound on the literal. *)
+Theorem C18_literal_bytes_eq_rustc : forall src v,
+  rustc_string src v -> parse_literal (utf8 src) = Some (utf8 v).
+Proof. exact parse_literal_string. Qed.
+(** the hypothesis is satisfiable, by a token using every production *)
+Theorem C18_literal_example :
+  rustc_string [34; 97; 92;110; 92;120;52;49; 92;117;123;101;95;57;125; 92;10;32;32; 98; 34]
+               [97; 10; 65; 233; 98].
+Proof. exact rustc_string_example. Qed.
+
+(** raw_literal_eq: r #^n dquote body dquote #^n denotes its body verbatim, any n, any body *)
+Theorem C18_raw_literal_eq : forall n body,
+  parse_literal (utf8 (raw_token n body)) = Some (utf8 body).
+Proof. exact parse_literal_raw. Qed.
+
+(** concat_eq: concat!(items) (nested or not) denotes the concatenation of its items *)
+Theorem C18_concat_eq : forall args vs,
+  Forall2 (fun a v => decode_src a = Some v) args vs ->
+  decode_src (SConcat args) = Some (concat vs).
+Proof. exact decode_concat. Qed.
+
+(** the encoder used for \u{..} values is UTF-8 as tabulated by the Unicode standard *)
+Theorem C18_encode_is_utf8 : forall c, 0 <= c <= 1114111 -> encode_m c = utf8_char c.
+Proof. exact encode_m_utf8. Qed.
+
+(** finding F6, the two behaviours before the repair (regression witnesses) *)
+Theorem C18_old_continuation_refuted :
+  let src := [34; 97; 92; 10; 32; 12288; 98; 34] in
+  rustc_string src [97; 12288; 98] /\
+  parse_string_old (utf8 src) = Some [97; 98] /\
+  parse_string (utf8 src) = Some (utf8 [97; 12288; 98]).
+Proof. exact old_continuation_refuted. Qed.
+Theorem C18_old_underscore_refuted :
+  let src := [34; 92;117;123;49;95;70;54;48;48;125; 34] in
+  rustc_string src [128512] /\
+  parse_string_old (utf8 src) = None /\
+  parse_string (utf8 src) = Some (utf8 [128512]).
+Proof. exact old_underscore_refuted. Qed.
+
+(* ---------------------------------------------------------------- the macro forms *)
 Local Open Scope nat_scope.
 
 (** the generated slice patterns [b0,..,bn, rem @ ..] / [rem @ .., b0,..,bn] match exactly
@@ -71,3 +116,10 @@ Print Assumptions C18_rfind_default.
 Print Assumptions C18_trim_iterated.
 Print Assumptions C18_trim_terminates.
 Print Assumptions C18_trims_functional.
+Print Assumptions C18_literal_bytes_eq_rustc.
+Print Assumptions C18_literal_example.
+Print Assumptions C18_raw_literal_eq.
+Print Assumptions C18_concat_eq.
+Print Assumptions C18_encode_is_utf8.
+Print Assumptions C18_old_continuation_refuted.
+Print Assumptions C18_old_underscore_refuted.
